@@ -113,6 +113,10 @@ def run(ctx):
             t = rng.randrange(1, len(tables)) if st == "nulls" else 0
             reqs.setdefault((st, t, "cat%d" % i), []).extend(dict(raw=x, **blank) for x in [c] + probes)
             n_stmt += 1 + len(probes)
+    for st in ("nulls", "empty"):
+        for t in ([rng.randrange(1, len(tables)) for _ in range(3)] if st == "nulls" else [0]):
+            reqs.setdefault((st, t, "degenerate"), []).extend(dict(raw=x, **blank) for x in sets["degenerate8"][0])
+            n_stmt += len(sets["degenerate8"][0])
     empty = [t for t in tables if not t["rows"]][0]
     requests = []
     for (st, t, _), qs in reqs.items():
